@@ -141,6 +141,7 @@ def _run(tape, out, elfi, root):
     abstract = [('disk' if on_disk else 'mem', len(stores), 'sim' in stores,
                  all(p in stores for p in spec['params']), control)]
     held_max = 0          # number of batches the pool should hold (0..held_max-1)
+    held = {}             # per store: batches it should hold (only runs whose net contains it)
     reused = False
     nsteps = tape.int('n_steps', 2, 5)
     out.sample = {'spec': sp.describe_spec(spec), 'stores': list(stores),
@@ -160,7 +161,10 @@ def _run(tape, out, elfi, root):
         if method == 'smc' and smc_base[0] is not None:
             return pycopy.deepcopy(smc_base[0])
         if method == 'rejection':
-            wl = sr.gen_rejection_workload(tape, specs[version], pil, extra_outputs=False)
+            # extra outputs are tape-chosen per run, so a listed store may be outside the
+            # compiled net of one run and inside the net of a later one (stores of unequal length)
+            wl = sr.gen_rejection_workload(tape, specs[version], pil, extra_outputs=True,
+                                            extras_optional=True)
         else:
             wl = sr.gen_smc_workload(tape, specs[version], pil)
         wl['batch_size'] = bs
@@ -392,20 +396,24 @@ def _run(tape, out, elfi, root):
                             if isinstance(p_, str) and p_ not in in_net:
                                 in_net.add(p_)
                                 grew = True
+            this_run = (max(consumed_idx) + 1) if consumed_idx else 0
             for s in pool.stores:
-                if s not in in_net:
-                    continue      # not part of this inference's compiled net: cannot be stored
+                if s in in_net:
+                    held[s] = max(held.get(s, 0), this_run)
+                # a store that is not part of this inference's compiled net cannot be filled by
+                # it and keeps what earlier runs gave it
                 st = pool.stores[s]
                 n = len(st) if st is not None else 0
-                if n != held_max:
-                    # a store added late (after remove) cannot exist; stores only shrink
+                if n != held.get(s, 0):
                     out.violate('pool-content', 'batch-count', store=s, holds=n,
-                                expected=held_max, step=step)
+                                expected=held.get(s, 0), step=step, in_net=s in in_net)
                     return
+            if len({held.get(s, 0) for s in pool.stores}) > 1:
+                out.probes['stores_of_unequal_length'] += 1
             for bi in sorted(ref_batches):
                 got = pool.get_batch(bi)
                 for s in pool.stores:
-                    if s not in ref_batches[bi] or s not in in_net:
+                    if s not in ref_batches[bi] or s not in in_net or bi >= held.get(s, 0):
                         continue
                     if s not in got or not sr.arrays_equal(np.asarray(got[s]),
                                                            np.asarray(ref_batches[bi][s])):
